@@ -57,6 +57,9 @@ func genDBRP(r *hx.Run) []json.RawMessage {
 			}
 		case 1:
 			o.K, o.B, o.N, o.F = "mupdate", r.Ops.Choose(10, "mapping"), r.Ops.Choose(1+len(rpNames), "rp"), r.Ops.Choose(3, "default")
+			// a direct caller of the service may send other values in the fields Update documents as
+			// unchangeable (database, bucket); they must be ignored (the organization addresses the mapping)
+			o.F += 3 * r.Ops.Pick("ignored-fields", 6, 2, 1)
 		case 2:
 			o.K, o.B = "mdelete", r.Ops.Choose(10, "mapping")
 		case 3:
@@ -287,7 +290,7 @@ func (s *dstate) apply(ctx context.Context, o op) {
 		if o.N > 0 {
 			upd.RetentionPolicy = rpNames[(o.N-1)%len(rpNames)]
 		}
-		switch o.F {
+		switch o.F % 3 {
 		case 1:
 			upd.Default = true
 		case 2:
@@ -295,11 +298,25 @@ func (s *dstate) apply(ctx context.Context, o op) {
 		}
 		want := "ok"
 		if !got.Virtual {
-			if other := s.physOf(org, upd.Database, upd.RetentionPolicy); other != nil && other.id != got.ID {
+			if other := s.physOf(org, got.Database, upd.RetentionPolicy); other != nil && other.id != got.ID {
 				want = perrors.EConflict
 			}
 		}
+		switch o.F / 3 {
+		case 1:
+			for _, db := range dbNames {
+				if db != got.Database {
+					upd.Database = db
+				}
+			}
+			r.Probe("probe_update_carries_other_database")
+		case 2:
+			upd.BucketID = got.BucketID + 1
+		}
 		err = e.dbrp.Update(ctx, &upd)
+		if err == nil && !got.Virtual && (upd.Database != got.Database || upd.BucketID != got.BucketID || upd.OrganizationID != got.OrganizationID) {
+			r.Violate("C43:immutable-field-changed", "update", "Update of %s changed a field that cannot change: now db=%s bucket=%s org=%s", mlabel(got), upd.Database, upd.BucketID, upd.OrganizationID)
+		}
 		r.Logf("c%d o%d update %s -> rp=%s default=%v -> %s", o.C, o.A%2, mlabel(got), upd.RetentionPolicy, upd.Default, code(err))
 		if got.Virtual {
 			// the property does not say what updating a virtual mapping does; only the invariants are judged
